@@ -39,3 +39,34 @@ Proof.
   - destruct (c <? th_dna th); [reflexivity|].
     rewrite L. cbn [app]. destruct (valid_subs_loop _ _ _ _); reflexivity.
 Qed.
+
+(* ------------------------------------------------------------------ the per-transcript loop of
+   REDItoolsRecord.convert_to_variant_records = Vep.redi_loop in mode 1 (a non-intron ValueError is re-raised) *)
+From MoPep Require Import Gen.Py_REDItoolsParser.
+
+Lemma code_redi_convert_is_model_l : forall th r txs, py_redi_convert th r txs = redi_loop 1 th r txs.
+Proof.
+  intros th r txs0.
+  (* inner loop: one record per valid substitution *)
+  assert (IN : forall pos (x : rtx) (l : list (Z * Z)) acc,
+    py_redi_convert_loop1 th r txs0 pos x l acc
+    = Continue (acc ++ map (fun s => (x_id x, pos, fst s, snd s)) l)).
+  { intros pos x. induction l as [|s t IH]; intro acc.
+    - cbn [py_redi_convert_loop1 map]. rewrite app_nil_r. reflexivity.
+    - cbn [py_redi_convert_loop1 map]. cbv zeta. rewrite IH, <- app_assoc. reflexivity. }
+  assert (OUT : forall (l : list rtx) acc,
+    match py_redi_convert_loop2 th r txs0 l acc with Done x => x | Continue a => Ok a end
+    = bind (redi_loop 1 th r l) (fun more => Ok (acc ++ more))).
+  { induction l as [|x t IH]; intro acc.
+    - cbn [py_redi_convert_loop2 redi_loop bind]. rewrite app_nil_r. reflexivity.
+    - cbn [py_redi_convert_loop2 redi_loop]. cbv zeta.
+      destruct (get_transcript_index (g_strand (x_gene x)) (x_exons x) (r_pos r - 1)) as [i| |]; cbv iota.
+      + unfold bind at 2. destruct (g2gene (x_gene x) (r_pos r - 1)) as [pos| | | |]; try reflexivity.
+        destruct (get_valid_subs th r) as [vs|]; [|reflexivity].
+        rewrite IN, IH. unfold bind. destruct (redi_loop 1 th r t); try reflexivity.
+        rewrite <- app_assoc. reflexivity.
+      + reflexivity.
+      + apply IH. }
+  unfold py_redi_convert. cbv zeta. rewrite OUT. unfold bind. cbn [app].
+  destruct (redi_loop 1 th r txs0); reflexivity.
+Qed.
